@@ -62,6 +62,7 @@ fn glide_calls() -> BoxedStrategy<ApiCase> {
     let x = prop_oneof![4 => -10.0f32..=10.0, 1 => prop_oneof![Just(0.0f32), Just(1e-40f32), Just(-1e-38f32), Just(10.0f32), Just(-10.0f32)], 1 => tiny_f32()];
     let call = prop_oneof![
         3 => t.prop_map(GlideCall::SetTime),
+        1 => (prop_oneof![3 => Just(2u8), 2 => 1u8..=4, 1 => Just(8u8), 1 => Just(100u8)], prop_oneof![2 => Just(0i8), 1 => -2i8..=2]).prop_map(|(k, ulps)| GlideCall::SetTimeSamples { k, ulps }),
         3 => x.clone().prop_map(GlideCall::Process),
         2 => (x, 0u16..500).prop_map(|(v, n)| GlideCall::ProcessN(v, n)),
     ];
